@@ -607,6 +607,15 @@ func (c19) Run(c *Case, st *Stats) []Violation {
 				}
 				http.DefaultTransport = tr
 				repo := asset.NewTiingoRepository("key")
+				if c.Seed%2 == 0 {
+					// built the way the command-line tools build it: by name through the factory
+					if r, err := asset.NewRepository(asset.TiingoRepositoryBuilderName, "key"); err == nil {
+						repo = r.(*asset.TiingoRepository)
+					} else {
+						add("constructor-error", err.Error())
+						return
+					}
+				}
 				repo.BaseURL = "http://tiingo.sim"
 				if c.Entity == "tiingo-lastdate" {
 					d, err := repo.LastDate("A")
